@@ -142,6 +142,38 @@ package pointindex
 //@   use pow2_step(d - l + 1) && pow2_pos(d - l)
 //@   ensures gs(res, d, l - 1) == 2 * gs(res, d, l) && hfloor(gs(res, d, l - 1)) == gs(res, d, l)
 //@   ensures (x / 2) * gs(res, d, l - 1) + ite(x % 2 == 1, gs(res, d, l), 0) == x * gs(res, d, l)
+// C03, second sentence (grids that do not divide evenly): with S = 2^d * res + r (r the remainder the integer pixel size
+// leaves, 0 <= r), the centre the index gives pixel k of level l - offset k * (2^(d-l) * res) + (2^(d-l) * res) / 2 from
+// the corner - lies at most r + 1/2 internal units (1e-10) below the ideal centre (k + 1/2) * S / 2^l and never above
+// it. Stated without division: 0 <= 2 * 2^l * (ideal - actual) <= 2^l * (2 r + 1).
+//@ lemma[C03] centre_dev(S Int, res Int, r Int, d Int, l Int, k Int)
+//@   prelude arith
+//@   requires 0 <= l && l <= d && d <= 32 && res >= 1 && 0 <= r && S == pow2(d) * res + r && 0 <= k && k < pow2(l)
+//@   use pow2_split(d, l) && pow2_pos(l) && pow2_pos(d - l)
+//@   ensures 0 <= (2 * k + 1) * S - pow2(l) * (2 * (k * gs(res, d, l) + hfloor(gs(res, d, l))))
+//@   ensures (2 * k + 1) * S - pow2(l) * (2 * (k * gs(res, d, l) + hfloor(gs(res, d, l)))) <= pow2(l) * (2 * r + 1)
+// ... and that remainder r is at most what DeviationStats reports (in internal units), plus 2 for the truncation of
+// the two float corners to 1e-10: so every centre is within (reported deviation + 2.5e-10) of the ideal centre.
+//@ lemma[C03] dev_remainder(blx Real, trx Real, d Int)
+//@   prelude arith
+//@   requires 0 <= d && d <= 32 && 0 - 50000000 < blx && blx < 50000000 && 0 - 50000000 < trx && trx < 50000000
+//@   use pow2_pos(d)
+//@   ensures real((trunc(trx * 10000000000) - trunc(blx * 10000000000)) - pow2(d) * ((trunc(trx * 10000000000) - trunc(blx * 10000000000)) / pow2(d)))
+//@        <= ((trx - blx) - real(((trunc(trx * 10000000000) - trunc(blx * 10000000000)) / pow2(d)) * pow2(d)) / 10000000000) * 10000000000 + 2
+// ... both together, in terms of the float corners blx, trx of the extent: with S, res, dev as the code computes them,
+// 0 <= 2 * 2^l * (ideal - actual) <= 2^l * (2 * (dev * 1e10 + 2) + 1), i.e. 0 <= ideal - actual <= dev + 2.5e-10 units
+//@ macro spanI(blx, trx) = trunc(trx * 10000000000) - trunc(blx * 10000000000)
+//@ macro devU(blx, trx, d) = ((trx - blx) - real((spanI(blx, trx) / pow2(d)) * pow2(d)) / 10000000000) * 10000000000
+//@ lemma[C03] centre_near_ideal(blx Real, trx Real, d Int, l Int, k Int)
+//@   prelude arith
+//@   requires 0 <= l && l <= d && d <= 32 && 0 - 50000000 < blx && blx < 50000000 && 0 - 50000000 < trx && trx < 50000000
+//@   requires spanI(blx, trx) >= pow2(d) && 0 <= k && k < pow2(l)
+//@   use pow2_pos(d) && pow2_pos(l)
+//@   use dev_remainder(blx, trx, d)
+//@   use centre_dev(spanI(blx, trx), spanI(blx, trx) / pow2(d), spanI(blx, trx) - pow2(d) * (spanI(blx, trx) / pow2(d)), d, l, k)
+//@   ensures 0 <= (2 * k + 1) * spanI(blx, trx) - pow2(l) * (2 * (k * gs(spanI(blx, trx) / pow2(d), d, l) + hfloor(gs(spanI(blx, trx) / pow2(d), d, l))))
+//@   ensures real((2 * k + 1) * spanI(blx, trx) - pow2(l) * (2 * (k * gs(spanI(blx, trx) / pow2(d), d, l) + hfloor(gs(spanI(blx, trx) / pow2(d), d, l)))))
+//@        <= real(pow2(l)) * (2 * (devU(blx, trx, d) + 2) + 1)
 // the deepest-level coordinate of a point inside the grid is inside the grid
 //@ lemma coord_bound(px Int, minx Int, res Int, d Int)
 //@   prelude arith
@@ -461,10 +493,15 @@ package pointindex
 
 // DeviationStats: formats a report; what matters to validation is that it does not panic and fails when matrix 0
 // is missing. (PrintWithDecimals only formats a number; it is trusted not to panic for n >= Precision + 1.)
+// C03 (second sentence): the deviation it reports is the float span of the extent minus what the integer pixel size
+// covers, 2^level * (integer span / 2^level), in CRS units; with lemma centre_dev this bounds the distance of every
+// centre from the ideal one by the reported deviation (up to the 1e-10 truncation of the corners, see DESIGN.md).
 //@ func DeviationStats
 //@   prelude arith tmsaxis morton
 //@   requires indexableIf0(tms, deepestTMID)
 //@   ensures[C14] err == nil ==> hasKey(tms.TileMatrices, 0)
+//@   ensures[C03] err == nil ==> deviationInUnits == (bboxTR(tms, 0)[0] - bboxBL(tms, 0)[0])
+//@               - real(((bbMaxX(tms) - bbMinX(tms)) / pow2(tmLevel(tms, deepestTMID))) * pow2(tmLevel(tms, deepestTMID))) / 10000000000
 
 // C17/C02: the keys of the four children of a pixel are 4z, 4z+1, 4z+2, 4z+3 (z < 2^62 so that they fit).
 // Proved from the contracts of FromZ / MustToZ and the bit-vector lemmas of package morton (transferred to integers).
